@@ -87,7 +87,7 @@ def plan(tier, seed):
         for lab in CART:
             for r in range(4 if q else 80):
                 specs.append({"kind": "onehot_cart", "label": lab, "scale": scale, "rep": r})
-    for r in range(500 if q else 30000):
+    for r in range(500 if q else 90000):
         specs.append({"kind": "dense", "scale": SCALES[r % 2], "rep": r})
     for r in range(200 if q else 8000):
         specs.append({"kind": "alias_fn", "rep": r})
@@ -95,7 +95,7 @@ def plan(tier, seed):
         specs.append({"kind": "alias_probe", "rep": r})
     for r in range(30 if q else 500):
         specs.append({"kind": "alias_direct", "rep": r})
-    for r in range(300 if q else 30000):
+    for r in range(300 if q else 90000):
         specs.append({"kind": "fit", "rep": r})
     rng = np.random.default_rng([seed, 12, 3])
     order = rng.permutation(len(specs))
